@@ -25,7 +25,10 @@ advance alternately: it takes a listing of 4-5 members for the path to be report
 and before the last one is); a family with BLOCKING consumer callbacks (on_join / on_leave sleeping 1 s .. 60 s of virtual
 time or waiting for the script, for the first / middle / last member of a listing, with tree changes meanwhile and afterwards:
 a quiescent point requires that no callback is still running, ops T = time passes, REL = the callback is released); a
-family in which an EMPTY path (child watch armed) is deleted and re-created faster than the client re-reads it.  The
+family in which an EMPTY path (child watch armed) is deleted and re-created faster than the client re-reads it; a
+family of member TYPES (public argument member_factory: namedtuples, tuple subclasses, objects with hostile __str__) under
+raising callbacks in listings of 2-3 changes; a few BIG listings (100-130 members at once, one more change k Serve steps
+into the reads) recorded with compact events (ZCreateN / ZDeleteN / Joins / Leaves, which ZkAbs expands exactly).  The
 code-shaped model has the blocking consumer too (policy bj / bl, action Return; weaker design ZKFIX_TO: a callback
 time-out that kills the worker, action Expire).  Serve events carry which request was answered and how (q, r): ZkAbs
 ignores that, `witness` uses it to tell the listed finding (stale children watch) from other failures.  Events carry the node name `m` and the data id `d`;
@@ -63,6 +66,8 @@ ASSUMPTIONS = [
   'value it is handed (equal data = equal member, like LoadBalancerSink keys servers by endpoint); histories never have two '
   'nodes with equal data alive at the same time (the statement does not say whether present means nodes or values then), '
   'a node name always carries the same data; successive registrations of one instance under different node names are covered',
+  'members produced by a custom member_factory have a `name` (ServerSet keys its cache by it), are truthy, and may be of '
+  'any type (tuples, objects whose __str__ / __repr__ raise); big member sets (> 100) carry data equal to their node index',
   'virtual-time gevent loop preserves gevent callback FIFO order (selftest)',
   'TLC exhaustive only within the stated constants (member names, history length, re-creations of the path)',
 ]
@@ -77,7 +82,11 @@ RULE = {'C19': 'tree histories (create/delete of members, delete/re-create of th
                'every on_join raising, thorough also every single one) and a family of blocking callbacks (on_join / on_leave of the first / '
                'middle / last member of a listing of 1-3 blocks for 1 s, 4.9 s, 5.1 s, 60 s (thorough 10 s) or until released; nothing, a '
                'member created, created and deleted, a member or everything and the path deleted meanwhile; a further change '
-               'afterwards; thorough also with raising callbacks) and a family of empty-path re-creations (no member ever / one '
+               'afterwards; thorough also with raising callbacks) and a family of member types (member_factory returning namedtuples, tuple subclasses, objects whose __str__/__repr__ '
+               'raise or contain %: listings of 2-3 joins / leaves / both, path deleted and re-created with members, each single and '
+               'every callback raising; random histories use them too) and big listings (100-130 members created at once, '
+               'compact events, one member created / deleted k Serve steps into the reads, fresh or re-created path: 3 in quick) '
+               'and a family of empty-path re-creations (no member ever / one '
                'announced, deleted and settled; 0, 1, 2 Serve steps or a quiescent point before the deletion, 0-2 between deletion '
                'and re-creation, 0, 1, 2 or a quiescent point after it; then 1-2 members created, one deleted); node names may share data values; non-trivial = at least one member created and at least '
                'one of: path deleted, a member read answered NoNode, a callback raised, a tree operation while requests '
@@ -112,16 +121,18 @@ def models(prop, tier):
               what='repaired design with BLOCKING consumer callbacks (the worker parked inside on_join / on_leave while '
                    'the tree changes, action Return): 2 names, history <= 6, path created <= 2x, raising policy <= 1, '
                    'blocking policy <= 1'),
-         dict(module='ZkServerSet', cfg='ZkServerSet_b4.cfg', env=full,
-              what='repaired design: 4 names, history <= 10, path created once (listings of up to 4 members: the '
-                   'path can be reported gone while the worker has read some members of a listing and not yet the rest)')]
+         ]
   if tier != 'quick':
+    # 4 names: in quick TLC explores ZkServerSet_b4.cfg only up to its counterexample for the weaker design ZKFIX_LZ
+    # (see _WEAKER); the repaired design is checked there in thorough (b4t = b4 plus raising policies)
     out.append(dict(module='ZkServerSet', cfg='ZkServerSet_t2.cfg', env=full, timeout=6000, heap='24g',
                     what='repaired design: 2 names, history <= 13, path created <= 5x, raising policy <= 2'))
     out.append(dict(module='ZkServerSet', cfg='ZkServerSet_t3.cfg', env=full, timeout=6000, heap='24g',
                     what='repaired design: 3 names, history <= 10, path created <= 3x, raising policy <= 1'))
     out.append(dict(module='ZkServerSet', cfg='ZkServerSet_b4t.cfg', env=full, timeout=6000, heap='16g',
-                    what='repaired design: 4 names, history <= 10, path created once, raising policy <= 1'))
+                    what='repaired design: 4 names, history <= 10, path created once, raising policy <= 1 (listings '
+                         'of up to 4 members: the path can be reported gone while the worker has read some members of a '
+                         'listing and not yet the rest)'))
   return out
 
 
@@ -130,7 +141,8 @@ def _pick_names(n):
   """n member names whose string hashes land in distinct, ascending slots of an 8-slot set
   table, so that Python sets of them iterate in index order under any hash seed (the
   code-shaped model iterates sets in ascending order)."""
-  assert n <= 8
+  if n > 8:      # big sets (direction B only: nothing depends on their iteration order)
+    return ['member_%04d' % i for i in range(n)]
   by_slot = {}
   i = 0
   if n > 4:
@@ -150,10 +162,52 @@ def _pick_names(n):
   return [by_slot[s] for s in slots]
 
 
+MEMBER_KINDS = ['nt', 'pair', 'badstr', 'pct']
+
+
+def _member_factory(kind):
+  """`member_factory` is a public argument of ZooKeeperServerSetProvider / ServerSet: a member is whatever it returns,
+  as long as it has `name` (ServerSet keys its cache by it) and what the consumer reads (here service_endpoint).
+    nt      a collections.namedtuple (name, service_endpoint, additional_endpoints)
+    pair    a tuple subclass of two items with the attributes as properties
+    badstr  an object whose __str__ / __repr__ raise
+    pct     an object whose __str__ / __repr__ contain % conversions"""
+  if not kind:
+    return None
+  import collections
+  from scales.loadbalancer.zookeeper import Member
+  if kind == 'nt':
+    Nt = collections.namedtuple('NtMember', 'name service_endpoint additional_endpoints')
+    make = lambda m: Nt(m.name, m.service_endpoint, m.additional_endpoints)
+  elif kind == 'pair':
+    class PairMember(tuple):
+      __slots__ = ()
+      name = property(lambda self: self[0].name)
+      service_endpoint = property(lambda self: self[0].service_endpoint)
+      additional_endpoints = property(lambda self: self[0].additional_endpoints)
+    make = lambda m: PairMember((m, 'tag'))
+  elif kind in ('badstr', 'pct'):
+    class Wrapped(object):
+      def __init__(self, m):
+        self.name, self.service_endpoint, self.additional_endpoints = m.name, m.service_endpoint, m.additional_endpoints
+
+      def __str__(self):
+        if kind == 'badstr':
+          raise RuntimeError('this member has no string form')
+        return '100%% %s %d of (%s'
+
+      __repr__ = __str__
+    make = Wrapped
+  else:
+    raise ValueError(kind)
+  return lambda node, data: make(Member.from_node(node, data))
+
+
 class Driver(object):
   """Runs the real provider/ServerSet over FakeZK and records the C19 events."""
 
-  def __init__(self, loop, n_names, rj, rl, endpoint_name=None, nvalues=None, bj=None, bl=None):
+  def __init__(self, loop, n_names, rj, rl, endpoint_name=None, nvalues=None, bj=None, bl=None, mk=None,
+               bulk=False):
     import gevent
     from harness.simgevent.fakezk import FakeZK, member_blob
     from scales.loadbalancer.serverset import ZooKeeperServerSetProvider
@@ -180,8 +234,10 @@ class Driver(object):
     self.zk.srv_ensure_path(BASE)
     self.nonode_reads = 0
     self.mid_ops = 0
+    self.mk = mk
+    self.bulk = bool(bulk)    # compact events (runs of joins / leaves / member reads) for big member sets
     self.prov = ZooKeeperServerSetProvider(self.zk, PATH, member_prefix='member_',
-                                           endpoint_name=endpoint_name)
+                                           endpoint_name=endpoint_name, member_factory=_member_factory(mk))
     self.ss = None
     cls = getattr(self.prov, 'ServerSet', None)
     if cls is not None:
@@ -241,8 +297,20 @@ class Driver(object):
       g.set()
     return bool(gs)
 
+  def _run(self, kind, d, quiet):
+    """bulk mode: a callback that neither blocks nor raises joins the run of equal callbacks before it."""
+    if not (self.bulk and quiet):
+      return False
+    if self.ev and self.ev[-1]['e'] == kind:
+      self.ev[-1]['ds'].append(d)
+    else:
+      self.ev.append({'e': kind, 'm': 0, 'd': 0, 'ds': [d]})
+    return True
+
   def on_join(self, member):
     d = self._d(member)
+    if self._run('Joins', d, d not in self.rj and d not in self.bj):
+      return
     self.ev.append({'e': 'Join', 'm': self._m(member), 'd': d})
     self._block(self.bj, d)
     if d in self.rj:
@@ -251,6 +319,8 @@ class Driver(object):
 
   def on_leave(self, member):
     d = self._d(member)
+    if self._run('Leaves', d, d not in self.rl and d not in self.bl):
+      return
     self.ev.append({'e': 'Leave', 'm': self._m(member), 'd': d})
     self._block(self.bl, d)
     if d in self.rl:
@@ -304,6 +374,21 @@ class Driver(object):
         eps[self.endpoint_name] = ('h%d' % d, port + 200)
       zk.srv_create(PATH + '/' + nm, self.blob('h%d' % d, port, eps, shard=d))
       self.ev.append({'e': 'ZCreate', 'm': o[1], 'd': d})
+    elif k == 'ZCN':     # nodes o[1]..o[2] created one after the other (node m carries data m), nothing served between
+      if (not zk.srv_exists(PATH) or self.nvalues != len(self.names) or o[1] > o[2]
+          or any(zk.srv_exists(PATH + '/' + self.names[m - 1]) for m in range(o[1], o[2] + 1))):
+        return False
+      for m in range(o[1], o[2] + 1):
+        zk.srv_create(PATH + '/' + self.names[m - 1], self.blob('h%d' % m, 8000 + m, {'http': ('h%d' % m, 8100 + m)}, shard=m))
+        self.loop.run_until_idle()
+      self.ev.append({'e': 'ZCreateN', 'm': o[1], 'd': o[2]})
+    elif k == 'ZDN':
+      if o[1] > o[2] or not all(zk.srv_exists(PATH + '/' + self.names[m - 1]) for m in range(o[1], o[2] + 1)):
+        return False
+      for m in range(o[1], o[2] + 1):
+        zk.srv_delete(PATH + '/' + self.names[m - 1])
+        self.loop.run_until_idle()
+      self.ev.append({'e': 'ZDeleteN', 'm': o[1], 'd': o[2]})
     elif k == 'ZD':
       nm = self.names[o[1] - 1]
       if not zk.srv_exists(PATH + '/' + nm):
@@ -341,7 +426,13 @@ class Driver(object):
            else 'gc' if watched else 'ls')
       # r: ok / no = the node was there / was not (NoNodeError, or None from exists) when the request was answered
       there = outcome == 'ok' and (op != 'exists' or zk.srv_exists(path))
-      self.ev.append({'e': 'Serve', 'm': 0, 'd': 0, 'q': q, 'r': 'ok' if there else 'no'})
+      r = 'ok' if there else 'no'
+      last = self.ev[-1] if self.ev else None
+      if self.bulk and q == 'rd' and last and last['e'] == 'Serve' and last.get('q') == 'rd' and last.get('r') == r:
+        last['k'] += 1           # bulk mode: a run of member reads answered alike is one event
+      else:
+        self.ev.append({'e': 'Serve', 'm': 0, 'd': 0, 'q': q, 'r': r, 'k': 1} if self.bulk else
+                       {'e': 'Serve', 'm': 0, 'd': 0, 'q': q, 'r': r})
     elif k == 'T':       # o[1] milliseconds of virtual time pass (timers fire in order)
       self.loop.run_for(o[1] / 1000.0)
     elif k == 'REL':     # the blocked consumer callbacks waiting for the script return
@@ -424,13 +515,14 @@ def run_case(script):
     return {'cfg': o['cfg'], 'ev': o['ev'], 'meta': o.get('meta')}
   loop = common.boot()
   d = Driver(loop, script['n'], script.get('rj', []), script.get('rl', []), script.get('endpoint'),
-             script.get('nv'), script.get('bj'), script.get('bl'))
+             script.get('nv'), script.get('bj'), script.get('bl'), script.get('mk'), script.get('bulk'))
   d.mark_q()
   for o in script['ops']:
     d.op(o)
   d.op(['Q'])
   return {'cfg': {'n': script['n'], 'nv': d.nvalues, 'rj': sorted(d.rj), 'rl': sorted(d.rl),
-                  'bj': sorted(map(list, d.bj.items())), 'bl': sorted(map(list, d.bl.items()))}, 'ev': d.ev,
+                  'bj': sorted(map(list, d.bj.items())), 'bl': sorted(map(list, d.bl.items())),
+                  'mk': d.mk or 'Member'}, 'ev': d.ev,
           'meta': _meta(d, loop)}
 
 
@@ -509,7 +601,7 @@ def _gen_script(rng, n, thorough):
     elif o[0] == 'OD':
       other = False
   return {'n': n, 'nv': nv, 'rj': rj, 'rl': rl, 'ops': ops,
-          'endpoint': rng.choice([None, None, 'aux'])}
+          'endpoint': rng.choice([None, None, 'aux']), 'mk': rng.choice([None] * 4 + MEMBER_KINDS)}
 
 
 def _gen_churn(rng, n):
@@ -689,6 +781,8 @@ def _mid_read_deletions(thorough):
       pols = [([], []), ([], list(range(1, n + 1))), (list(range(1, n + 1)), [])]
       if thorough:
         pols += [([], [m]) for m in range(1, n + 1)] + [([m], []) for m in range(1, n + 1)]
+      elif before == '1':
+        pols = pols[:1]           # quick: raising policies only with no member announced before
       for s in range(0, j + 2):
         for order in ((doomed, doomed[::-1]) if len(doomed) > 1 else (doomed,)):
           for p, t in [(0, 0)] + [(p, t) for p in range(1, len(order) + 1) for t in ((1, 2) if thorough else (1,))]:
@@ -788,6 +882,68 @@ def _empty_path_recreations(thorough):
   return out
 
 
+def _member_types(thorough):
+  """Members of other types than the library's Member (public argument member_factory: namedtuples, tuple subclasses,
+  objects whose __str__ / __repr__ raise or contain % conversions) with raising callbacks in listings of 2-3 changes:
+  whatever the server set does with a member besides handing it to the consumer (logging it, formatting it) must not
+  decide whether the other notifications of the listing are delivered.
+    joins    j members created at once (one listing, j joins)
+    leaves   j members announced, all deleted at once (one listing, j leaves), the path deleted or not
+    mixed    j members announced, the first deleted and a new one created in one listing (leave + join)
+    back     j members announced, everything and the path deleted, settled, path re-created with all of them
+  policies: on_join / on_leave of one value raises (each), of every value raises; afterwards one member more is
+  deleted / created and settled."""
+  out = []
+  for mk in MEMBER_KINDS:
+    for j in ((2, 3) if thorough or mk == 'nt' else (3,)):
+      n = j + 1
+      allv = list(range(1, n + 1))
+      mem = list(range(1, j + 1))
+      shapes = {
+        'joins': [['PC'], ['Q']] + [['ZC', m] for m in mem] + [['Q'], ['ZD', 1], ['Q']],
+        'leaves': [['PC'], ['Q']] + [['ZC', m] for m in mem] + [['Q']] + [['ZD', m] for m in mem] + [['Q'], ['ZC', n], ['Q']],
+        'leaves+path': [['PC'], ['Q']] + [['ZC', m] for m in mem] + [['Q']] + [['ZD', m] for m in mem] + [['PD'], ['Q']],
+        'mixed': [['PC'], ['Q']] + [['ZC', m] for m in mem] + [['Q'], ['ZD', 1], ['ZC', n], ['Q'], ['ZD', 2], ['Q']],
+        'back': [['PC'], ['Q']] + [['ZC', m] for m in mem] + [['Q']] + [['ZD', m] for m in mem] + [['PD'], ['Q'], ['PC']]
+                + [['ZC', m] for m in mem] + [['Q'], ['ZD', j], ['Q']],
+      }
+      for shape in sorted(shapes):
+        pols = [(allv, []), ([], allv), (allv, allv)]
+        pols += [([d], []) for d in mem] + [([], [d]) for d in mem]
+        if not thorough:      # quick: the policies that can matter for this shape
+          pols = [p for p in pols if (p[0] and shape in ('joins', 'mixed', 'back')) or (p[1] and shape != 'joins')]
+        for rj, rl in pols:
+          out.append({'n': n, 'nv': n, 'rj': rj, 'rl': rl, 'ops': shapes[shape], 'endpoint': None, 'mk': mk})
+  return out
+
+
+def _big_listings(thorough):
+  """Listings with more than 100 new members (start-up against a big set, a big set re-created with its path): N nodes
+  created at once (ZCN), the client stopped k Serve steps into the listing / the member reads, then one more member
+  created (or one deleted, or both), then served to quiescence.  Compact events (ZCreateN, runs of Joins / Leaves, runs of
+  member reads), expanded exactly by ZkAbs."""
+  out = []
+  if thorough:
+    combos = [(N, k, ch, back) for N in (100, 101, 130) for k in (1, 2, 6, 60, 101, 102, 125)
+              for ch in ('create', 'delete_read', 'delete_unread', 'both') for back in (False, True) if k <= N + 1]
+  else:
+    combos = [(101, 6, 'create', False), (130, 60, 'create', True), (130, 6, 'both', False)]
+  for N, k, ch, back in combos:
+    ops = [['PC'], ['Q']]
+    if back:     # the set existed before: announced, everything deleted with the path, settled, re-created
+      ops += [['ZCN', 1, N], ['Q'], ['ZDN', 1, N], ['PD'], ['Q'], ['PC']]
+    ops += [['ZCN', 1, N]] + [['S']] * k
+    if ch in ('create', 'both'):
+      ops.append(['ZC', N + 1])
+    if ch in ('delete_read', 'both'):
+      ops.append(['ZD', 1])
+    if ch == 'delete_unread':
+      ops.append(['ZD', N])
+    ops += [['Q'], ['ZD', 2], ['Q']]
+    out.append({'n': N + 1, 'nv': N + 1, 'rj': [], 'rl': [], 'ops': ops, 'endpoint': None, 'bulk': True})
+  return out
+
+
 # Weaker designs of the component (the unchanged code and partial repairs), as variants of the
 # code-shaped model.  TLC's counterexample for each is a history on which that design fails;
 # the tree under test must survive all of them (judged, like every trace, by ZkAbs).
@@ -856,10 +1012,10 @@ def cases(prop, tier, seed):
   _preload()
   rng = random.Random(1000003 * int(seed) + 19)
   thorough = tier != 'quick'
-  n = 1000 if not thorough else 6000
+  n = 700 if not thorough else 6000
   out = (list(_counterexample_scripts(tier)) + list(_systematic()) + list(_reregistrations())
          + list(_mid_read_deletions(thorough)) + list(_blocking_callbacks(thorough))
-         + list(_empty_path_recreations(thorough)))
+         + list(_empty_path_recreations(thorough)) + list(_member_types(thorough)) + list(_big_listings(thorough)))
   for i in range(n):
     if i % 3 == 2:
       out.append(_gen_churn(rng, [1, 2, 2, 3][(i // 3) % 4]))
@@ -872,7 +1028,7 @@ def cases(prop, tier, seed):
 
 def nontrivial(prop, t):
   ev = t['ev']
-  if not any(e['e'] == 'ZCreate' for e in ev):
+  if not any(e['e'] in ('ZCreate', 'ZCreateN') for e in ev):
     return None
   meta = t.get('meta') or {}
   interesting = (any(e['e'] in ('PDelete', 'Raised') for e in ev) or meta.get('nonode_reads') or meta.get('mid_ops'))
@@ -912,11 +1068,15 @@ def witness(prop, t, consumed, clause):
   last_pd = max([i for i, e in enumerate(ev) if e['e'] == 'PDelete'] or [-1])
   view = set()
   held = 0
-  for i, e in enumerate(ev[:-1] if ev and ev[-1]['e'] in ('Join', 'Leave') else ev):
+  for i, e in enumerate(ev[:-1] if ev and ev[-1]['e'] in ('Join', 'Leave', 'Joins', 'Leaves') else ev):
     if e['e'] == 'Join':
       view.add(e['d'])
     elif e['e'] == 'Leave':
       view.discard(e['d'])
+    elif e['e'] == 'Joins':
+      view.update(e['ds'])
+    elif e['e'] == 'Leaves':
+      view.difference_update(e['ds'])
     if i == last_pd:
       held = len(view)
   w = {'parent_deleted': last_pd >= 0, 'parent_recreated': False, 'settled_before_recreate': False,
@@ -962,8 +1122,8 @@ def witness(prop, t, consumed, clause):
       e['e'] == 'ZCreate' and e['d'] in missing for e in ev[:max(last_pd, 0)])
     w['missing_recreated_in_current_incarnation'] = any(
       sum(1 for e in ev[start:] if e['e'] == 'ZCreate' and e['d'] == m) >= 2 for m in missing)
-  elif last is not None and last['e'] in ('Join', 'Leave'):
-    w['duplicate'] = last['e'].lower()
+  elif last is not None and last['e'] in ('Join', 'Leave', 'Joins', 'Leaves'):
+    w['duplicate'] = last['e'].lower()[:5].rstrip('s')
   return w
 
 
